@@ -13,8 +13,16 @@ impl InstructionGenerator {
     ) {
         let expression_type = expr_pos.expression_type();
         let pos = expr_pos.pos();
+        // The static type of an arithmetic expression is only an approximation of the type
+        // of its value at runtime (a division or MOD of two integers can yield a SINGLE
+        // or a LONG), so such a value is always cast to a numeric target.
+        let is_approximately_typed = Self::is_arithmetic_expression(&expr_pos.element)
+            && matches!(
+                target_type,
+                ExpressionType::BuiltIn(q) if q != TypeQualifier::DollarString
+            );
         self.generate_expression_instructions(expr_pos);
-        if expression_type != target_type {
+        if expression_type != target_type || is_approximately_typed {
             match target_type {
                 ExpressionType::BuiltIn(q) => {
                     self.push(Instruction::Cast(q), pos);
@@ -24,6 +32,14 @@ impl InstructionGenerator {
                 }
                 _ => panic!("Cannot cast {:?} into {:?}", expression_type, target_type),
             }
+        }
+    }
+
+    fn is_arithmetic_expression(expr: &Expression) -> bool {
+        match expr {
+            Expression::BinaryExpression(_, _, _, _) | Expression::UnaryExpression(_, _) => true,
+            Expression::Parenthesis(child) => Self::is_arithmetic_expression(&child.element),
+            _ => false,
         }
     }
 
